@@ -566,6 +566,8 @@ class EventBus:
                 self.event_queue.put_nowait(event)
                 # Only add to history after successfully queuing
                 self.event_history[event.event_id] = event
+                # The event is not complete before this bus has processed it too
+                event._event_pending_bus_count += 1  # pyright: ignore[reportPrivateUsage]
                 logger.info(
                     f'🗣️ {self}.dispatch({event.event_type}) ➡️ {event.event_type}#{event.event_id[-4:]} (#{self.event_queue.qsize()} {event.event_status})'
                 )
@@ -990,11 +992,15 @@ class EventBus:
                     handler=handler, eventbus=self, status='pending', timeout=timeout or event.event_timeout
                 )
 
-        # Execute handlers
-        await self._execute_handlers(event, handlers=applicable_handlers, timeout=timeout)
+        try:
+            # Execute handlers
+            await self._execute_handlers(event, handlers=applicable_handlers, timeout=timeout)
 
-        await self._default_log_handler(event)
-        await self._default_wal_handler(event)
+            await self._default_log_handler(event)
+            await self._default_wal_handler(event)
+        finally:
+            # This bus is done with the event (it may still be queued or in flight on buses it was forwarded to)
+            event._event_pending_bus_count = max(0, event._event_pending_bus_count - 1)  # pyright: ignore[reportPrivateUsage]
 
         # Mark event as complete if all handlers are done
         event.event_mark_complete_if_all_handlers_completed()
